@@ -14,8 +14,9 @@ is positive or the environment made the pipe readable (`ioReady`).  "Never waits
 timeout" is thereby the safety property "never blocked in `polling` with work outstanding and
 nobody about to write the eventfd".
 
-Branch guards, the position of the `quit_` reset, the existence of the final drain, the swap, and
-the locking of `~EventLoopThread` come from `Generated/Loop.lean` (re-extracted from /repo).
+Branch guards, the position of the `quit_` reset, the existence of the final drain, the swap, the
+locking of `~EventLoopThread` and the `finished_` handshake between `threadFunc` and `startLoop` come from
+`Generated/Loop.lean` (re-extracted from /repo).
 -/
 namespace MuduoVerif.Loop
 open MuduoVerif.Gen.Loop
@@ -72,7 +73,7 @@ inductive Event
   | exec (t : TaskId)
   | wakeup | wakeread
   | post (t : TaskId)
-  | started | joined | returned | destroyed
+  | started | startedNull | joined | returned | destroyed
   | uaf (what : String)
   deriving DecidableEq, Repr
 
@@ -98,6 +99,7 @@ structure St where
   loopPtr : Bool                     -- loop_ != NULL
   mtx : Bool                         -- mutex_ held across a point (only the destructor does that)
   waiting : Bool                     -- startLoop is inside cond_.wait() and has not been notified
+  finished : Bool                    -- finished_: threadFunc has left loop() and cleared loop_
   -- the loop thread
   phase : Phase
   lpc : Pc
@@ -228,7 +230,9 @@ def stepLoop (s : St) : St :=
   | .returned =>
     if s.elt then
       if clearLocks && s.mtx then { s with out := none }
-      else { s with loopPtr := false, alive := false, phase := .dead, out := some .destroyed }
+      else { s with loopPtr := false, alive := false, phase := .dead, finished := finishSets,
+                    waiting := if finishSets && finishNotifies then false else s.waiting,
+                    out := some .destroyed }
     else { s with out := none }
   | .dead => { s with out := none }
 
@@ -286,12 +290,13 @@ def stepQuitStored (s : St) (k : Nat) (t : FThread) : St :=
 def stepSCheck (s : St) (k : Nat) (t : FThread) : St :=
   if s.mtx then { s with out := none }
   else if s.loopPtr then { setThr s k { t with pc := .idle } with out := some .started }
+  else if startChecksFinished && s.finished then { setThr s k { t with pc := .idle } with out := some .startedNull }
   else { setThr s k { t with pc := .sWaiting } with waiting := true, out := none }
 
 def stepSWaiting (s : St) (k : Nat) (t : FThread) : St :=
   if s.waiting || s.mtx then { s with out := none }
   else if startWaitsWhile then silent s k { t with pc := .sCheck }
-  else { setThr s k { t with pc := .idle } with out := some .started }
+  else { setThr s k { t with pc := .idle } with out := some (if s.loopPtr then .started else .startedNull) }
 
 def stepDEntry (s : St) (k : Nat) (t : FThread) : St :=
   if dtorLocks && s.mtx then { s with out := none }
@@ -361,7 +366,7 @@ init callback runs `pre`. -/
 def init (elt wakeLast : Bool) (tbl : TaskId → List Sub) (pre : List Sub) (progs : Nat → List Sub) : St :=
   { elt := elt, wakeLast := wakeLast, tbl := tbl,
     alive := !elt, pending := [], calling := false, looping := false, quit := false, ev := 0, ioReady := [],
-    loopPtr := false, mtx := false, waiting := false,
+    loopPtr := false, mtx := false, waiting := false, finished := false,
     phase := if elt then .unborn else .pre, lpc := .idle, stack := if pre.isEmpty then [] else [pre],
     active := [], batch := [], final := false,
     thr := fun k => { pc := .idle, prog := progs k },
